@@ -76,7 +76,7 @@ def _ctx(scn, idx):
     sig = {'ev': e.get('ev', ''), 'ft': e.get('ft', ''), 'kind': kind, 'role': e.get('role', ''), 'family': scn['family'],
            'mode': scn['opts'].get('mode', ''), 'late_actions': bool(scn['opts'].get('late_actions'))}
     if e.get('ev') == 'tx':
-        frag = scn['opts'].get('frag') or 0
+        frag = scn['opts'].get('frag_' + str(e.get('ep')), scn['opts'].get('frag')) or 0
         sig['over'] = (e.get('wl', 0) - frag) if frag else 0
         sig['M'] = e.get('M', 0)
     if e.get('ev') == 'enq':
